@@ -1,5 +1,5 @@
 (* C06 property theorems: statements closed by [exact lemma] + Print Assumptions. *)
-From V Require Import Common.Base C06.TsTokens C06.SkipType C06.SkipMono C06.TypeGrammar C06.SkipProofs C06.Erase C06.Enum.
+From V Require Import Common.Base C06.TsTokens C06.SkipType C06.SkipMono C06.TypeGrammar C06.SkipProofs C06.SkipProofs6 C06.TypeArgsExpr C06.Erase C06.Enum.
 
 (* fuel is a model artefact: a result other than "out of fuel" never changes
    when more fuel is given (all 19 mutually recursive routines) *)
@@ -7,24 +7,64 @@ Theorem skipper_fuel_monotone : forall n m c, (n <= m)%nat -> run n c <> Oof -> 
 Proof. exact run_mono. Qed.
 Print Assumptions skipper_fuel_monotone.
 
-(* skip_exact (partial: the grammar of TypeGrammar.v -- names, generic
-   references with nested argument lists, literal/primitive/this/unique symbol,
-   arrays, indexed access, tuples with rest/optional elements, unions,
-   intersections, keyof/readonly, infer, parentheses, conditional types,
-   predicates; NOT function/constructor types, object/mapped types, template
-   literal types, typeof/import types, qualified names, which are tied by the
-   correspondence run only).  For every well-formed type t, every level at which
-   TypeScript would parse t without parentheses, every flag set without
-   disallowConditionalTypes, and every following token sequence that cannot
-   continue a type: the skipper started on the tokens of t followed by rest stops
-   exactly at rest -- whether adjacent ">" characters were lexed as one token
-   (mg = true: ">>", ">>>", ">=", ">>=") or separately. *)
+(* skip_exact over the type grammar of TypeGrammar.v:
+     primitive / literal / this / unique symbol; qualified names with (nested)
+     type arguments; typeof queries and [typeof] import("m") types with qualified
+     names and type arguments; arrays, indexed access; tuples with labelled,
+     optional and rest elements; unions, intersections; keyof / readonly; infer;
+     parenthesised types; function types, constructor types and abstract
+     constructor types with parameter lists (this, optional, rest, annotated or
+     not) and return types incl. predicates "x is T" / "this is T"; object types
+     with property, method, call, construct, accessor, index-signature and
+     mapped-type members (+/- readonly, +/- ?, "as" clause) and ";" / "," / no
+     separator; conditional types (extends operand: any union-or-higher type
+     without an exposed keyof/readonly, incl. a bare "infer U"); template-literal
+     types.
+   For every well-formed type t, every level at which TypeScript parses t without
+   parentheses, every flag set without disallowConditionalTypes and every
+   following token sequence that cannot continue a type, the skipper started on
+   the tokens of t followed by rest stops exactly at rest -- whether adjacent ">"
+   characters were lexed as one token (mg = true: ">>", ">>>", ">=", ">>=") or not.
+   Still named _partial; excluded (tied by the correspondence run only):
+     type-parameter lists "<T extends U = V>" of function types and methods;
+     "infer U extends C" constraints; destructuring patterns as parameters;
+     "asserts x [is T]" outside return positions (see skip_exact_return);
+     parenthesised types whose content starts with "[" "{" "(" or keyof/readonly
+     (the arrow-parameter attempt of skipTypeScriptParenOrFnType runs
+     arbitrarily far on them); a keyof/readonly operand exposed in the extends
+     clause of a conditional type; computed keys "[expr]:" and "import(..., {with})". *)
 Theorem skip_exact_partial : forall mg t rest lvl f,
   wfb t = true -> lvl <= LPrefix -> lvl_ok t lvl = true -> fNoCond f = false ->
   follow_ok rest = true ->
   exists N, forall m, (N <= m)%nat -> run m (CType lvl f (R mg t rest)) = Ok (0, rest).
 Proof. exact skip_exact_R. Qed.
 Print Assumptions skip_exact_partial.
+
+(* return positions (isReturnTypeFlag): a type of the grammar or an assertion
+   signature "asserts x" / "asserts x is T" / "asserts this is T" *)
+Theorem skip_exact_return : forall mg ret rest,
+  wf_ret_with wfb ret = true -> follow_ok rest = true ->
+  exists N, forall m, (N <= m)%nat -> run m (CType LLowest fl_ret (R mg ret rest)) = Ok (0, rest).
+Proof. exact skip_exact_ret. Qed.
+Print Assumptions skip_exact_return.
+
+(* "f<T>(x)" versus "a < b > c": the model's transcription of
+   tsCanFollowTypeArgumentsInExpression equals the TypeScript compiler's rule
+   (canFollowTypeArgumentsInExpression / isBinaryOperator / isStartOfExpression)
+   on every token sequence, i.e. for every kind of following token *)
+Theorem can_follow_type_arguments_is_typescript_rule : forall ts, can_follow_type_args ts = spec_can_follow ts.
+Proof. exact can_follow_is_spec. Qed.
+Print Assumptions can_follow_type_arguments_is_typescript_rule.
+
+(* trySkipTypeArgumentsInExpressionWithBacktracking: "<" args ">" is consumed as a
+   type-argument list iff the following token may follow type arguments under the
+   TypeScript rule; otherwise the lexer is back at the "<" (less-than operator) *)
+Theorem type_arguments_in_expression_decision : forall mg args post,
+  args <> [] -> forallb wfb args = true ->
+  let ts := tk1 KLt :: join [tk1 KComma] (map (R mg) args) (tk1 KGt :: post) in
+  Ev (CTryArgsExpr ts) (if spec_can_follow post then (1, post) else (0, ts)).
+Proof. exact tryargs_decision. Qed.
+Print Assumptions type_arguments_in_expression_decision.
 
 (* when the loop at a higher level stops, the enclosing loop at the lower level
    finishes the same work (the reason the skipper's sloppy precedence is harmless) *)
@@ -36,8 +76,9 @@ Proof. exact split. Qed.
 Print Assumptions suffix_loop_split.
 
 (* erase (annotate p) = p at the token level: for every JavaScript token
-   stream with type syntax at sites (": T", return types, "as"/"satisfies",
-   "!", "<T,...>", modifiers, "?"), the parser's skipping leaves exactly the
+   stream with type syntax at sites (": T", return types incl. assertion
+   signatures, "as"/"satisfies", "!", "<T,...>", modifiers, "?") drawn from the
+   whole grammar of skip_exact_partial, the parser's skipping leaves exactly the
    JavaScript tokens *)
 Theorem erase_annotate : forall mg p, sites_ok mg p = true ->
   exists N, forall n, (N <= n)%nat -> erase n (shape p) (typed mg p) = Ok (untyped p).
